@@ -5,7 +5,7 @@ V = os.path.dirname(os.path.dirname(os.path.abspath(__file__)))
 log = open(sys.argv[1]).read().splitlines()
 rows = {}
 for ln in log:
-    m = re.match(r"^(\S+)\s+(C\d\d)\s+(CAUGHT-OTHER|CAUGHT|QUIET|MISSED|FALSE-ALARM|ERROR)\s*(.*)$", ln)
+    m = re.match(r"^(\S+)\s+(C\d\d)\s+(CAUGHT-OTHER|CAUGHT|QUIET|MISSED|FALSE-ALARM|ALARMS-BY-DESIGN|ERROR)\s*(.*)$", ln)
     if m:
         rules = re.findall(r"rule (R\d\d\.?\w*)", m.group(4))
         rows.setdefault(m.group(1), []).append((m.group(2), m.group(3), sorted(set(rules))))
@@ -39,8 +39,9 @@ for mid in sorted(rows):
     kind, w = why.get(mid, ("?", ""))
     if kind != "preserve":
         continue
-    bad = [p for p, st, r in rows[mid] if st != "QUIET"]
-    print("| `%s` | %s | %s%s |" % (mid, w.replace("|", "/"), ", ".join(p for p, st, r in rows[mid]), (" **NOT QUIET: %s**" % bad) if bad else ""))
+    bad = [p for p, st, r in rows[mid] if st not in ("QUIET", "ALARMS-BY-DESIGN")]
+    design = [p for p, st, r in rows[mid] if st == "ALARMS-BY-DESIGN"]
+    print("| `%s` | %s | %s%s |" % (mid, w.replace("|", "/"), ", ".join(p for p, st, r in rows[mid]), ((" **NOT QUIET: %s**" % bad) if bad else "") + ((" *(alarms by design, §10: %s)*" % ", ".join(design)) if design else "")))
 nb = sum(1 for k, (kind, _) in why.items() if kind == "break")
 npv = sum(1 for k, (kind, _) in why.items() if kind == "preserve")
 print("\nTotals: %d breaking controls, %d behaviour-preserving controls, %d independently seeded changes." % (nb, npv, sum(1 for d in glob.glob(os.path.join(V, "seeded", "*", "meta.json")) if "retired" not in json.load(open(d)))))
